@@ -271,6 +271,10 @@ func run(id, tier string, replayFiles []string) int {
 		if tier == "quick" && u.ThoroughOnly {
 			continue
 		}
+		// development aids (not used by registered commands)
+		if only := os.Getenv("VERIF_ONLY_UNIT"); only != "" && u.Name != only {
+			continue
+		}
 		bin, err := build(scratch, u)
 		if err != nil {
 			fatal2("build of %s harness failed (broken check, not a violation): %v", u.Name, err)
@@ -280,6 +284,9 @@ func run(id, tier string, replayFiles []string) int {
 		if tier == "thorough" {
 			total = u.Thorough
 			timeout = u.ThoroughTimeoutS
+		}
+		if fs := os.Getenv("VERIF_FUZZ_SECONDS"); fs != "" && u.Fuzz != "" {
+			total, _ = strconv.Atoi(fs)
 		}
 		if timeout == 0 {
 			if tier == "thorough" {
